@@ -31,7 +31,7 @@ class Crash:
 
 
 def load_ab(path, cfg):
-    m = c07.Affine(cfg["a0"] + 7, cfg["b0"] - 5, tied=cfg.get("tied", False))           # a fresh model with OTHER weights
+    m = c07.Affine(cfg["a0"] + 7, cfg["b0"] - 5, tied=cfg.get("tied", False), scalar=cfg.get("scalar", False))           # a fresh model with OTHER weights
     try:
         m.load_state_dict(torch.load(path))
     except Exception:          # the file does not load into an identical model
@@ -40,7 +40,7 @@ def load_ab(path, cfg):
 
 
 def run_one(s):
-    cfg = dict(s["cfg"], tied=(pick(s["tid"], 2, 1) == 0))
+    cfg = dict(s["cfg"], tied=(pick(s["tid"], 2, 1) == 0), scalar=(pick(s["tid"], 2, 6) == 1))
     N, ck, kill = cfg["N"], cfg["ckint"], cfg["kill"]
     base = os.environ.get("VERIF_TMP") or None
     wd = tempfile.mkdtemp(prefix="c19-", dir=base)
